@@ -158,6 +158,52 @@ func RoundtripSweep(run *ev.Run, backend string, vals []interface{}) {
 		items[i].want["upd"] = "u"
 	}
 	check("after replace+update")
+	// rewrites that change only the Go type of a number or only the zone of a time (values that compare equal under
+	// the query order are still different documents): the new value must be what is read back
+	tUTC := time.Date(2020, 5, 6, 7, 8, 9, 10, time.UTC)
+	twins := [][2]interface{}{
+		{int64(1), uint64(1)}, {int64(1), float64(1)}, {uint64(7), int64(7)}, {float64(2), int64(2)}, {int64(0), math.Copysign(0, -1)},
+		{tUTC, tUTC.In(time.FixedZone("", 3*3600))}, {tUTC.In(time.FixedZone("", -2*3600)), tUTC},
+		{[]interface{}{int64(1), "a"}, []interface{}{float64(1), "a"}}, {map[string]interface{}{"k": uint64(3)}, map[string]interface{}{"k": int64(3)}},
+		{[]interface{}{map[string]interface{}{"t": tUTC}}, []interface{}{map[string]interface{}{"t": tUTC.In(time.FixedZone("", 3600))}}},
+	}
+	for ti, tw := range twins {
+		for wi, how := range []string{"replaceById", "updateById-inplace", "updateById-copy", "update"} {
+			id := ID(800000 + ti*10 + wi)
+			first := m.Doc{"_id": id, "f": m.Clone(tw[0]), "keep": "k"}
+			second := m.Doc{"_id": id, "f": m.Clone(tw[1]), "keep": "k"}
+			it := item{id: id, want: second, desc: fmt.Sprintf("%s rewritten as %s by %s", m.Canon(tw[0]), m.Canon(tw[1]), how)}
+			if err := in.DB.Insert("a", drv.Doc(first)); err != nil {
+				viol("type-rewrite-insert", it, err.Error())
+				continue
+			}
+			var r *drv.Result
+			switch how {
+			case "replaceById":
+				r = drv.Exec(in, m.Op{K: "replaceById", Coll: "a", Id: id, Docs: []m.Doc{second}})
+			case "updateById-inplace":
+				r = drv.Exec(in, m.Op{K: "updateById", Coll: "a", Id: id, Upd: &m.Updater{Set: map[string]interface{}{"f": tw[1]}, Style: "inplace"}})
+			case "updateById-copy":
+				r = drv.Exec(in, m.Op{K: "updateById", Coll: "a", Id: id, Upd: &m.Updater{Set: map[string]interface{}{"f": tw[1]}, Style: "copy"}})
+			default:
+				r = drv.Exec(in, m.Op{K: "update", Q: &m.Q{Coll: "a", Crit: m.Leaf("eq", "_id", id)}, Set: map[string]interface{}{"f": tw[1]}})
+			}
+			run.Add("evaluations", 1)
+			run.Distinct("documents", id)
+			if r.Panic != nil || r.Err != nil {
+				viol("type-rewrite-error", it, r.String())
+				continue
+			}
+			g := drv.Exec(in, m.Op{K: "findById", Coll: "a", Id: id})
+			if len(g.Docs) != 1 || !m.Equal(g.Docs[0], second) {
+				got := interface{}(nil)
+				if len(g.Docs) == 1 {
+					got = g.Docs[0]
+				}
+				viol("type-rewrite", it, fmt.Sprintf("read back %s, last written %s", m.Canon(got), m.Canon(second)))
+			}
+		}
+	}
 	run.Sample(map[string]interface{}{"document": m.ToJSON(items[len(items)/2].want)})
 }
 
